@@ -1,10 +1,12 @@
 import CV.Drv.Util
 import CV.Model.StaticPath
+import CV.Model.StaticListing
 /- Driver glue for the `staticpath` machine (C16): configuration + file-system table, then
    one `serve` / `spec` line per request path; leaf ops validate the stdlib re-implementations. -/
 namespace CV.Drv.SP
 open CV.Drv
 open CV.StaticPath
+open CV.StaticListing
 
 structure SPSt where
   cfg : Option Cfg := none
@@ -92,6 +94,28 @@ def staticPathStep (s : SPSt) : List String → SPSt × String
     match spStr a, spStr b with
     | some a, some b => (s, spShow (join a b))
     | _, _ => (s, "bad-op")
+  -- directory listing (C16 extension): `listing <reqpath> <name>*` - the names are what os.listdir gave for
+  -- the listed directory; answer: `none <outcome>` or `listing <loc> <up|~> (<name> <href> <d|f> <li line> <y|n leads back>)*`
+  | "listing" :: rp :: names =>
+    match s.cfg, spStr rp, names.mapM spStr with
+    | some cfg, some rp, some names =>
+      let fs := fsOf s.tbl
+      match serveListing unquote fs (fun _ => names) cfg rp with
+      | none => (s, "none " ++ showOutcome (serve unquote fs cfg rp))
+      | some l =>
+        let ent (e : Entry) : String :=
+          s!" {spShow e.name} {spShow e.href} {if e.isDir then "d" else "f"} {spShow (liLine e)} {if leadsTo unquote fs cfg l.loc e then "y" else "n"}"
+        let up := match l.up with | none => "~" | some h => spShow h ++ "," ++ spShow (upLine h)
+        (s, s!"listing {spShow l.loc} {up}" ++ String.join (l.items.map ent))
+    | _, _, _ => (s, "bad-op")
+  | ["quote", x] =>
+    match spStr x with
+    | some x => (s, spShow (quote x))
+    | none => (s, "bad-op")
+  | ["escape", x] =>
+    match spStr x with
+    | some x => (s, spShow (escape x))
+    | none => (s, "bad-op")
   | _ => (s, "bad-op")
 
 end CV.Drv.SP
